@@ -1,6 +1,7 @@
 # Copyright (c) Microsoft Corporation. All rights reserved.
 # Licensed under the MIT License.
 import sys
+import threading
 from typing import Any, Optional, Sequence, Tuple, Union
 
 import attrs
@@ -13,22 +14,26 @@ OptionalPrimitive = Optional[Union[bool, int, str, float]]
 
 # Flag to ensure we only resolve forward references once.
 _resolved_forward_references = False
+_resolve_lock = threading.Lock()
 
 
 def _resolve_forward_references() -> None:
     """Resolve forward references for faster processing with cattrs."""
     global _resolved_forward_references
-    if not _resolved_forward_references:
+    if _resolved_forward_references:
+        return
+    with _resolve_lock:
+        if not _resolved_forward_references:
 
-        def _filter(p: Tuple[str, object]) -> bool:
-            return isinstance(p[1], type) and attrs.has(p[1])
+            def _filter(p: Tuple[str, object]) -> bool:
+                return isinstance(p[1], type) and attrs.has(p[1])
 
-        # Creating a concrete list here because `resolve_types` mutates the provided map.
-        items = list(filter(_filter, lsp_types.ALL_TYPES_MAP.items()))
-        for _, value in items:
-            if isinstance(value, type):
-                attrs.resolve_types(value, lsp_types.ALL_TYPES_MAP, {})
-        _resolved_forward_references = True
+            # Creating a concrete list here because `resolve_types` mutates the provided map.
+            items = list(filter(_filter, lsp_types.ALL_TYPES_MAP.items()))
+            for _, value in items:
+                if isinstance(value, type):
+                    attrs.resolve_types(value, lsp_types.ALL_TYPES_MAP, {})
+            _resolved_forward_references = True
 
 
 def register_hooks(converter: cattrs.Converter) -> cattrs.Converter:
